@@ -164,34 +164,59 @@ def check(report, tier):
 
     tasks = [(label, n, lines) for (label, _, _) in vm for (n, lines) in vjobs]
     tasks += [(l, n, lines) for l in ("c++17.O2.ndebug", "c++17.O2.ndebug.noextras") for (n, lines) in std_only]
-    with ThreadPoolExecutor(max_workers=C.NCPU) as ex:
-        results = list(ex.map(run_vec, tasks))
-    table = {}
-    for (label, name, lines_in), (l2, n2, tr, berr) in zip(tasks, results):
-        table.setdefault((name, hashlib.sha1("\n".join(lines_in).encode()).hexdigest()), {})[label] = (tr, berr, lines_in)
+    # the reference build's transcripts are kept; every other transcript is compared with its reference by the worker that produced
+    # it and dropped (the full matrix of transcripts does not have to be in memory at once)
     ref_label = vm[0][0]
-    for (name, _), per in table.items():
-        ref = per.get(ref_label)
-        for label, (tr, berr, lines_in) in per.items():
-            if berr:
-                report.violation({"config": name, "build": label, "broken": ["driver build under " + label], "compiler_output": berr[-3000:], "no_failing_input_found": True},
-                                 "the vector driver does not build under %s" % label, True)
-                found = True
-                continue
-            evals += len(tr)
-            distinct.add((name, label))
-            if ref is None or ref[0] is None or label == ref_label:
-                continue
-            d = _first_diff(ref[0], tr)
+
+    def key_of(name, lines_in):
+        return (name, hashlib.sha1("\n".join(lines_in).encode()).hexdigest())
+
+    ref_tasks = [t for t in tasks if t[0] == ref_label]
+    other_tasks = [t for t in tasks if t[0] != ref_label]
+    refs = {}
+    with ThreadPoolExecutor(max_workers=C.NCPU) as ex:
+        for (label, name, lines_in), (l2, n2, tr, berr) in zip(ref_tasks, ex.map(run_vec, ref_tasks)):
+            refs[key_of(name, lines_in)] = (tr, berr)
+
+    def run_cmp(args):
+        label, name, lines_in = args
+        _, _, tr, berr = run_vec(args)
+        if berr:
+            return 0, berr, None, False
+        ref = refs.get(key_of(name, lines_in))
+        if ref is None or ref[0] is None:
+            return len(tr), None, None, False
+        return len(tr), None, _first_diff(ref[0], tr), True
+
+    with ThreadPoolExecutor(max_workers=C.NCPU) as ex:
+        cmp_results = list(ex.map(run_cmp, other_tasks))
+    for (name, _), (tr, berr) in refs.items():
+        if berr:
+            report.violation({"config": name, "build": ref_label, "broken": ["driver build under " + ref_label], "compiler_output": berr[-3000:], "no_failing_input_found": True},
+                             "the vector driver does not build under %s" % ref_label, True)
+            found = True
+            continue
+        evals += len(tr)
+        distinct.add((name, ref_label))
+    for (label, name, lines_in), (nlines, berr, d, was_compared) in zip(other_tasks, cmp_results):
+        if berr:
+            report.violation({"config": name, "build": label, "broken": ["driver build under " + label], "compiler_output": berr[-3000:], "no_failing_input_found": True},
+                             "the vector driver does not build under %s" % label, True)
+            found = True
+            continue
+        evals += nlines
+        distinct.add((name, label))
+        if was_compared:
             compared.append((name, ref_label, label))
-            if d is not None:
-                i, x, y = d
-                hid = x.split(" ")[1] if x.startswith("T ") else "?"
-                hl = vecgen_history(lines_in, hid)
-                report.violation({"config": name, "build_a": ref_label, "build_b": label, "script": hl[:40], "transcript_a": x[:600], "transcript_b": y[:600],
-                                  "found_by": "transcript comparison", "no_failing_input_found": False},
-                                 "%s: transcripts differ between %s and %s\n  %s\n  %s" % (name, ref_label, label, x[:300], y[:300]))
-                found = True
+        if d is not None:
+            i, x, y = d
+            hid = x.split(" ")[1] if x.startswith("T ") else "?"
+            hl = vecgen_history(lines_in, hid)
+            report.violation({"config": name, "build_a": ref_label, "build_b": label, "script": hl[:40], "transcript_a": x[:600], "transcript_b": y[:600],
+                              "found_by": "transcript comparison", "no_failing_input_found": False},
+                             "%s: transcripts differ between %s and %s\n  %s\n  %s" % (name, ref_label, label, x[:300], y[:300]))
+            found = True
+    refs.clear()
     # ---- sets (C++17 and later)
     sm = SET_MATRIX_FULL if th else SET_MATRIX_QUICK
     sjobs = [(n, setgen.random_script(SCfg(n), seed + 16, 150 if th else 50, 50)) for n in setgen.CONFIGS]
